@@ -55,6 +55,11 @@ def stage_text(i, st):
     raise ValueError(k)
 
 
+# a builtin stage that writes several lines: three definitions, listed by `alias` in the order of its table
+LISTING_PRELUDE = "alias vpl1='vp_a 1' ; alias vpl2='vp_b -x 2' ; alias vpl3='vp_c'"
+LISTING_BYTES = sum(len("alias %s='%s'\n" % (n, v)) for n, v in (("vpl1", "vp_a 1"), ("vpl2", "vp_b -x 2"), ("vpl3", "vp_c")))
+
+
 def expected_status(st):
     k = st["kind"]
     if k == "notfound":
@@ -82,6 +87,8 @@ def judge(case):
         line = pipeline + " ; vp_snap $?"
     else:
         line = pipeline
+    if any(s_.get("listing") for s_ in stages):
+        line = LISTING_PRELUDE + " ; " + line
     if case.get("prelude"):
         # earlier commands of the same shell (builtins run in the shell process, a failing command, a pipeline):
         # whatever state they leave behind must not reach the pipeline under test
@@ -165,6 +172,14 @@ def judge(case):
                 res["sig_ign"], res["sig_blk"] = x.get("sig_ign"), x.get("sig_blk")
                 return ("violated", "C02:stage-started-with-SIGPIPE-%s" % (
                     "ignored" if x.get("sig_ign", 0) & (1 << 13) else "blocked"), res)
+            # ... and the same for every other signal that has to be able to terminate or stop a stage (the shell ignores
+            # or blocks some of them for itself: a stage must not inherit that)
+            for sname, sg in (("HUP", 1), ("INT", 2), ("QUIT", 3), ("ABRT", 6), ("USR1", 10), ("SEGV", 11), ("ALRM", 14),
+                              ("TERM", 15), ("TSTP", 20), ("TTIN", 21), ("TTOU", 22)):
+                if (x.get("sig_ign", 0) | x.get("sig_blk", 0)) & (1 << sg):
+                    res["sig_ign"], res["sig_blk"] = x.get("sig_ign"), x.get("sig_blk")
+                    return ("violated", "C02:stage-started-with-SIG%s-%s" % (
+                        sname, "ignored" if x.get("sig_ign", 0) & (1 << sg) else "blocked"), res)
     # (a'') wiring: stage i's stdout and stage i+1's stdin are the two ends of one pipe that no other link shares; the first
     # stage reads what the shell reads, the last one writes where the shell writes, every stage keeps the shell's stderr,
     # and no stage holds any other descriptor
@@ -220,6 +235,11 @@ def judge(case):
             # (a builtin that prints nothing on its stdout - its diagnostics go to stderr - feeds nothing to the next stage)
             if e_r["nin"] != 0:
                 return ("violated", "C02:bytes-from-nowhere:%s%s" % (feat, ":writer=failing-builtin" if w.get("fails") else ""), res)
+        elif w["kind"] == "builtin" and w.get("listing"):
+            # every line the builtin stage writes reaches its reader
+            if e_r["nin"] != LISTING_BYTES:
+                res["listing_bytes_expected"], res["reader_received"] = LISTING_BYTES, e_r["nin"]
+                return ("violated", "C02:builtin-stage-output-incomplete:%s:reader-got-%s" % (feat, "less" if e_r["nin"] < LISTING_BYTES else "more"), res)
         if e_r["rerr"]:
             return ("violated", "C02:read-error:%s" % feat, res)
     if not case["lossy"]:
@@ -325,6 +345,7 @@ def gen_cases(tier, seed):
                 lambda: {"kind": "status", "exit": rng.choice([0, 1, 9])},
                 lambda: {"kind": "notfound"},
                 lambda: {"kind": "builtin", "text": rng.choice(["minfd", "alias", "jobs"])},
+                lambda: {"kind": "builtin", "text": "alias", "listing": True},
                 # builtins that print nothing on stdout: a failing one reports on stderr
                 lambda: {"kind": "builtin", "text": rng.choice(["cd /vp-no-such-dir", "unalias vp_no_such_alias", "read 1x"]),
                          "silent": True, "fails": True},
